@@ -222,6 +222,8 @@ int main(int argc, char **argv)
         printf("#%ld %s\n", (long) *cur, lv_classify(err, status, cls, sizeof(cls)));
         if (crashes++ == 0) fputs(err, stderr);
         start = *cur + 1;
+        /* a tree this broken needs no further evidence; forking an ASan process is slow */
+        if (crashes >= 300) { fprintf(stderr, "harness: 300 faults, giving up\n"); break; }
     }
     fflush(stdout);
     return 0;
